@@ -136,6 +136,10 @@ func verifyRoot(ld *Loaded, sf *SpecFile, fn *ssa.Function, fs *FuncSpec, prop s
 	res, out, outG := e.execFunc(fn, args, bindings, st, "true", 0, fs, "")
 	if fs != nil {
 		env := e.newEnv()
+		if e.rootFrame != nil {
+			// locals of the root (single-assignment values and address-taken variables) are visible in postconditions
+			env = e.funcEnv(e.rootFrame)
+		}
 		for n, v := range fvVals {
 			env.vars[n] = v
 		}
@@ -614,6 +618,10 @@ func checkProperty(opt *Options, start time.Time) int {
 			notes[n] = true
 		}
 		nCheck := 0
+		if len(r.Errs) > 0 {
+			// the function could not be translated / its contract could not be evaluated: undecided, not violated
+			continue
+		}
 		for _, o := range r.Obls {
 			if !o.Check {
 				continue
